@@ -448,7 +448,19 @@ func (s *Service) restoreFromECPartsByRule(ctx context.Context, cnr cid.ID, pare
 	for i := range rule.ParityPartNum {
 		partIdx := int(rule.DataPartNum + i)
 		eg.Go(func() error {
-			_, part, err := s.getECPart(gCtx, cnr, parent, rule, ruleIdx, sortedNodes, partIdx)
+			parentHdr, part, err := s.getECPart(gCtx, cnr, parent, rule, ruleIdx, sortedNodes, partIdx)
+			if err == nil {
+				linker := parentHdr.Type() == object.TypeLink
+				if !gotHdr.Swap(true) {
+					if linker {
+						parentHdr.SetPayload(part)
+					}
+					hdr = parentHdr
+				}
+				if linker || parentHdr.PayloadSize() == 0 {
+					return errInterrupt
+				}
+			}
 			if err != nil {
 				if errors.Is(err, apistatus.ErrObjectAlreadyRemoved) || errors.Is(err, apistatus.ErrObjectAccessDenied) || errors.Is(err, gCtx.Err()) ||
 					errors.As(err, new(*object.SplitInfoError)) {
@@ -476,9 +488,15 @@ func (s *Service) restoreFromECPartsByRule(ctx context.Context, cnr cid.ID, pare
 		return object.Object{}, err
 	}
 
+	if hdr.Type() == object.TypeLink || (gotHdr.Load() && hdr.PayloadSize() == 0) {
+		return hdr, nil
+	}
+
 	if rem = islices.CountNilsInTwoDimSlice(parts); rem > int(rule.ParityPartNum) {
 		return object.Object{}, tooManyPartsUnavailableError(rem)
 	}
+
+	pldLen = hdr.PayloadSize()
 
 	payload, err := iec.Decode(rule, pldLen, parts)
 	if err != nil {
